@@ -79,26 +79,32 @@ def _alg_class(name):
 
 
 def block_fns(alg_name, key):
-    """(encrypt_block, decrypt_block, block_bytes) over Cipher(alg, ECB), one block per call."""
+    """(encrypt_block, decrypt_block, block_bytes): the raw block function, one block per call (one ECB context each,
+    fed exactly one block at a time - ECB keeps no state between blocks)."""
     from cryptography.hazmat.primitives.ciphers import Cipher, modes
     klass = _alg_class(alg_name)
     alg = klass(key)
     bs = klass.block_size // 8
+    e = Cipher(alg, modes.ECB()).encryptor()
+    d = Cipher(alg, modes.ECB()).decryptor()
 
     def enc(b):
         assert len(b) == bs
-        e = Cipher(alg, modes.ECB()).encryptor()
-        return e.update(b) + e.finalize()
+        r = e.update(b)
+        assert len(r) == bs
+        return r
 
     def dec(b):
         assert len(b) == bs
-        d = Cipher(alg, modes.ECB()).decryptor()
-        return d.update(b) + d.finalize()
+        r = d.update(b)
+        assert len(r) == bs
+        return r
     return enc, dec, bs
 
 
 def xor(a, b):
-    return bytes(x ^ y for x, y in zip(a, b))
+    n = min(len(a), len(b))
+    return (int.from_bytes(a[:n], 'big') ^ int.from_bytes(b[:n], 'big')).to_bytes(n, 'big')
 
 
 def pad(scheme, bs, m):
@@ -126,7 +132,7 @@ def _blocks(d, bs):
 
 def mode_encrypt(mode, enc, bs, iv, data):
     """mode in 'ECB','CBC','CFB','OFB','CTR' written over the single-block function."""
-    out = b''
+    out = []
     if mode == 'ECB':
         assert len(data) % bs == 0
         return b''.join(enc(b) for b in _blocks(data, bs))
@@ -135,46 +141,47 @@ def mode_encrypt(mode, enc, bs, iv, data):
         prev = iv
         for b in _blocks(data, bs):
             prev = enc(xor(b, prev))
-            out += prev
-        return out
+            out.append(prev)
+        return b''.join(out)
     if mode == 'CFB':
         prev = iv
         for b in _blocks(data, bs):
             c = xor(b, enc(prev))
-            out += c
+            out.append(c)
             prev = c
-        return out
+        return b''.join(out)
     if mode == 'OFB':
         prev = iv
         for b in _blocks(data, bs):
             prev = enc(prev)
-            out += xor(b, prev)
-        return out
+            out.append(xor(b, prev))
+        return b''.join(out)
     if mode == 'CTR':
         ctr = int.from_bytes(iv, 'big')
+        top = 1 << (8 * bs)
         for b in _blocks(data, bs):
-            out += xor(b, enc((ctr % (1 << (8 * bs))).to_bytes(bs, 'big')))
+            out.append(xor(b, enc((ctr % top).to_bytes(bs, 'big'))))
             ctr += 1
-        return out
+        return b''.join(out)
     raise KeyError(mode)
 
 
 def mode_decrypt(mode, enc, dec, bs, iv, data):
-    out = b''
+    out = []
     if mode == 'ECB':
         return b''.join(dec(b) for b in _blocks(data, bs))
     if mode == 'CBC':
         prev = iv
         for b in _blocks(data, bs):
-            out += xor(dec(b), prev)
+            out.append(xor(dec(b), prev))
             prev = b
-        return out
+        return b''.join(out)
     if mode == 'CFB':
         prev = iv
         for b in _blocks(data, bs):
-            out += xor(b, enc(prev))
+            out.append(xor(b, enc(prev)))
             prev = b
-        return out
+        return b''.join(out)
     return mode_encrypt(mode, enc, bs, iv, data)      # OFB, CTR are involutions
 
 
